@@ -23,6 +23,7 @@ fi
 RACE=""
 for P in "$@"; do [ "$P" = C07 ] && { go build -race -modfile="$SCR/go.mod" -tags verif -o "$SCR/vcheck-race" ./cmd/vcheck >/dev/null 2>&1 && RACE="-racebin $SCR/vcheck-race"; }; done
 mkdir -p "$SCR/verif" "$SCR/work"
+cp "$HERE/known_findings.json" "$SCR/verif/" 2>/dev/null   # a finding listed as known is not what a seeded change is measured by
 FIRED=""; SILENT=""
 for P in "$@"; do
   R=""; [ "$P" = C07 ] && R="$RACE"
